@@ -92,6 +92,10 @@ Section P.
     else if existsb (fun b => b) (m_skipif rt) then mkPres OSkip w [] []
     else if has_dyn MAncFailed i dyn then mkPres OSkipPrevFailed w [] []
     else if has_dyn MWould i dyn then mkPres OWould w [] []
+    (* F30: the persist hook asks every neighbour for its state; a provisional product has none
+       (AttributeError): the task fails before anything else happens *)
+    else if negb (is_gen t) && m_persist rt && (match pprods t with [] => false | _ => true end)
+         then mkPres OFail w [] []
     else if negb (is_gen t) && m_persist rt && all_exist Ec w rt && any_changed Ec w rt
          then mkPres OPersist (if dry_run c then w else record_states (edges_record E w w t) w rt) [] []
     else
